@@ -13,7 +13,14 @@
 //                             "-" = empty script; after the script is used up the listener re-awaits for ever
 //   tlisten <s1> <s2> ...     the same, but every listener is created and first subscribes on its own thread
 //                             (threads released together by a barrier, joined before the line is printed)
-//   listen0 <script>          listener on a default constructed (never connected) emitter
+//   listen0 <script>          listener on a default constructed (never connected) emitter (odd ids: on an emitter taken
+//                             from a moved-from signal object)
+//   alisten <script>          = listen, spelled: default constructed emitter, emitter::operator= from a connected one
+//   assign <l> live|none|moved|self|copy <k> [mv]
+//                             emitter::operator= on the emitter of listener <l> while it is busy at its gate: from a
+//                             connected emitter / a default constructed one / one taken from a moved-from signal /
+//                             itself / the emitter of listener <k>;  mv = the (defaulted) move assignment
+//   connect0 <n>              connect() on a moved-from signal object (no state): the callback is released at once
 //   connect <n>               connect a callback that returns true n times, then false
 //   emit <flavour> <v> [hold] collector call from a normal thread; flavour val|rv|lv|conv; without `hold` the
 //                             returned suspend point is discarded (= flushed at once); with `hold` it is kept
@@ -78,7 +85,8 @@ struct gate {
 };
 
 template <typename T>
-async<void> listener(Ctx &cx, int id, typename signal<T>::emitter em, std::string script) {
+async<void> listener(Ctx &cx, int id, typename signal<T>::emitter &em, std::string script) {
+    // `em` is owned by the case (Case::ems), so that `assign` can reach it while the listener is busy at its gate
     frame_guard g(cx);
     std::size_t pc = 0;
     std::string tag = "L" + std::to_string(id);
@@ -237,9 +245,19 @@ struct Case {
         }
     }
 
-    void start_listener(int id, const std::string &script, bool connected) {
+    // the emitters of the coroutine listeners (node based: stable addresses); entries are created on the main thread
+    std::map<int, em_t> ems;
+
+    void start_listener(int id, const std::string &script) {
         std::string sc = script == "-" ? std::string() : script;
-        listener<T>(cx, id, connected ? em : em_t(), sc).detach();
+        listener<T>(cx, id, ems.at(id), sc).detach();
+    }
+
+    // an emitter taken from a `signal` object that has no state (moved-from)
+    static em_t stateless_emitter() {
+        sig_t x;
+        sig_t y(std::move(x));
+        return x.get_emitter();
     }
 
     void run(std::istream &in) {
@@ -302,23 +320,69 @@ struct Case {
                 return;
             } else if (w[0] == "listen" && w.size() == 2) {
                 int id = next_id++;
-                start_listener(id, w[1], true);
+                ems.emplace(id, em);
+                start_listener(id, w[1]);
                 head = "listen L" + std::to_string(id);
+            } else if (w[0] == "alisten" && w.size() == 2) {
+                // default constructed emitter, then emitter::operator= from the connected one, then the first co_await
+                int id = next_id++;
+                ems[id];
+                ems.at(id) = em;
+                start_listener(id, w[1]);
+                head = "alisten L" + std::to_string(id);
             } else if (w[0] == "listen0" && w.size() == 2) {
                 int id = next_id++;
-                start_listener(id, w[1], false);
+                if (id % 2) ems.emplace(id, stateless_emitter()); else ems[id];
+                start_listener(id, w[1]);
                 head = "listen0 L" + std::to_string(id);
+            } else if (w[0] == "assign" && w.size() >= 3) {
+                // emitter::operator= on the emitter of a listener that is busy at its gate (nothing is suspended on it):
+                // assign <l> live | none | moved | self | copy <k>   [mv = move assignment]
+                int id = atoi(w[1].c_str());
+                bool gated;
+                {
+                    std::lock_guard<std::mutex> _(cx.mx);
+                    gated = cx.gated.count(id) != 0;
+                }
+                auto it = ems.find(id);
+                bool mv = w.back() == "mv";
+                if (!gated || it == ems.end()) {
+                    head = "bad-op";
+                } else if (w[2] == "self") {
+                    em_t &same = it->second;
+                    it->second = same;
+                    head = "assign";
+                } else if (w[2] == "copy") {
+                    auto k = w.size() > 3 ? ems.find(atoi(w[3].c_str())) : ems.end();
+                    if (k == ems.end()) head = "bad-op";
+                    else { it->second = k->second; head = "assign"; }
+                } else if (w[2] == "live" || w[2] == "none" || w[2] == "moved") {
+                    em_t src = w[2] == "live" ? em : w[2] == "none" ? em_t() : stateless_emitter();
+                    if (mv) it->second = std::move(src); else it->second = src;
+                    head = "assign";
+                } else {
+                    head = "bad-op";
+                }
+            } else if (w[0] == "connect0" && w.size() == 2) {
+                // connect() on a signal object without state (moved-from): initial_reg cannot lock, the awaiter deletes itself
+                int id = next_id++;
+                auto sh = std::make_shared<cb_shared>(cb_shared{&cx, id, atoi(w[1].c_str())});
+                sig_t x;
+                sig_t y(std::move(x));
+                x.connect(cb_fn(sh));
+                head = "connect0 C" + std::to_string(id);
             } else if (w[0] == "tlisten" && w.size() >= 2) {
                 std::size_t n = w.size() - 1;
                 int first = next_id;
                 next_id += (int)n;
+                for (std::size_t i = 0; i < n; ++i) ems.emplace(first + (int)i, em);
                 std::atomic<std::size_t> arrived{0};
                 std::vector<std::thread> thr;
                 for (std::size_t i = 0; i < n; ++i) {
                     thr.emplace_back([&, i] {
                         ++arrived;
                         while (arrived.load() < n) std::this_thread::yield();
-                        start_listener(first + (int)i, w[1 + i], true);
+                        start_listener(first + (int)i, w[1 + i]);
                     });
                 }
                 for (auto &t : thr) t.join();
